@@ -83,6 +83,62 @@ fn enc_id(rng: &mut Prng, id: &[u8; 20]) -> String {
     s
 }
 
+/// identifier text made of atoms (ASCII, raw Latin-1 = 2 UTF-8 bytes, raw characters above
+/// U+00FF = 2..3 bytes, %XX) and then padded / cut with ASCII so that EITHER its character count
+/// (after decoding) OR its UTF-8 byte length is exactly 20, or one off
+fn atom_id(rng: &mut Prng) -> String {
+    let mut s = String::new();
+    let n = 6 + rng.below(16);
+    let pct_ok = rng.chance(1, 2);
+    for _ in 0..n {
+        match rng.below(20) {
+            0..=10 => s.push((b'a' + rng.below(26) as u8) as char),
+            11..=13 => s.push(char::from_u32(0xa1 + rng.below(0x5e) as u32).unwrap()),
+            14 => s.push(*rng.pick(&['\u{131}', '\u{20ac}', '\u{100}', '\u{7ff}'])),
+            _ => {
+                if pct_ok {
+                    s.push_str(&format!("%{:02x}", rng.below(256)))
+                } else {
+                    s.push('z')
+                }
+            }
+        }
+    }
+    let target = *rng.pick(&[20usize, 20, 20, 19, 21]);
+    if rng.chance(1, 2) {
+        // UTF-8 byte length == target
+        while s.len() > target {
+            s.pop();
+        }
+        while s.len() < target {
+            s.push('q');
+        }
+    } else {
+        // decoded character count == target (a %XX atom counts once)
+        let count = |s: &str| -> usize {
+            let mut n = 0;
+            let cs: Vec<char> = s.chars().collect();
+            let mut i = 0;
+            while i < cs.len() {
+                if cs[i] == '%' {
+                    i += 3;
+                } else {
+                    i += 1;
+                }
+                n += 1;
+            }
+            n
+        };
+        while count(&s) > target {
+            s.pop();
+        }
+        while count(&s) < target {
+            s.push('q');
+        }
+    }
+    s
+}
+
 pub fn run(args: &Args) {
     crate::drive(args, 0x4e91, |rng, _keep, _seed, header, items| {
         *header = "true".to_string();
@@ -151,7 +207,22 @@ pub fn run(args: &Args) {
                     let j = rng.below(i as u64 + 1) as usize;
                     params.swap(i, j);
                 }
-                match rng.below(8) {
+                match rng.below(11) {
+                    6 | 7 => {
+                        // replace one identifier by an atom-built text
+                        let which = *rng.pick(&["info_hash", "peer_id"]);
+                        let text = atom_id(rng);
+                        let mut done = false;
+                        for p in params.iter_mut() {
+                            if p.starts_with(&format!("{}=", which)) && !done {
+                                *p = format!("{}={}", which, text);
+                                done = true;
+                            }
+                        }
+                        if !done {
+                            params.push(format!("{}={}", which, text));
+                        }
+                    }
                     0 => params[0] = format!("info_hash={}", enc_id(rng, &ih).chars().take(10).collect::<String>()), // short id
                     1 => params.push(format!("info_hash={}x", enc_id(rng, &ih))),              // 21 chars
                     2 => params.push("peer_id=%4".to_string()),
